@@ -550,6 +550,73 @@ func escapesIn(body ast.Node, seeds ...string) []string {
 }
 
 // runtimeState: package-level `var`s of a runtime source file that are not plain error values.
+// capturedWrites: assignments in a function literal to plain identifiers that the literal neither declares nor takes
+// as a parameter / result (variables of the enclosing function or of the package).
+func capturedWrites(fl *ast.FuncLit) []string {
+	declared := map[string]bool{"_": true}
+	addFields := func(fl *ast.FieldList) {
+		if fl == nil {
+			return
+		}
+		for _, f := range fl.List {
+			for _, n := range f.Names {
+				declared[n.Name] = true
+			}
+		}
+	}
+	addFields(fl.Type.Params)
+	addFields(fl.Type.Results)
+	ast.Inspect(fl.Body, func(n ast.Node) bool {
+		switch x := n.(type) {
+		case *ast.AssignStmt:
+			if x.Tok == token.DEFINE {
+				for _, l := range x.Lhs {
+					if id, ok := l.(*ast.Ident); ok {
+						declared[id.Name] = true
+					}
+				}
+			}
+		case *ast.ValueSpec:
+			for _, id := range x.Names {
+				declared[id.Name] = true
+			}
+		case *ast.RangeStmt:
+			if x.Tok == token.DEFINE {
+				for _, e := range []ast.Expr{x.Key, x.Value} {
+					if id, ok := e.(*ast.Ident); ok {
+						declared[id.Name] = true
+					}
+				}
+			}
+		case *ast.FuncLit:
+			if x != fl {
+				addFields(x.Type.Params)
+				addFields(x.Type.Results)
+			}
+		}
+		return true
+	})
+	var out []string
+	ast.Inspect(fl.Body, func(n ast.Node) bool {
+		var lhs []ast.Expr
+		switch x := n.(type) {
+		case *ast.AssignStmt:
+			if x.Tok != token.DEFINE {
+				lhs = x.Lhs
+			}
+		case *ast.IncDecStmt:
+			lhs = []ast.Expr{x.X}
+		}
+		for _, l := range lhs {
+			if id, ok := l.(*ast.Ident); ok && !declared[id.Name] {
+				out = append(out, show(n))
+			}
+		}
+		return true
+	})
+	return out
+}
+
 func runtimeState(f *ast.File, base string) (vars []string, names map[string]bool) {
 	names = map[string]bool{}
 	for _, d := range f.Decls {
@@ -678,6 +745,11 @@ func main() {
 						}
 						for _, wr := range escapesIn(fl.Body, "x", recv) {
 							facts.ReadPathEscapes = append(facts.ReadPathEscapes, w+": "+wr)
+						}
+						// state carried from one call to the next (or from the size closure to the marshal closure): a write
+						// to a variable the closure captures instead of declaring it
+						for _, wr := range capturedWrites(fl) {
+							facts.ReadPathWrites = append(facts.ReadPathWrites, w+": captured variable: "+wr)
 						}
 						if id.Name == "marshal" {
 							facts.MarshalClosures++
